@@ -131,22 +131,20 @@ Theorem C08_restart_after_reorg_equals_running : forall nd blk nd' o,
 Proof. exact restart_after_reorg_equals_running. Qed.
 Print Assumptions C08_restart_after_reorg_equals_running.
 
-(** A crash after the reorg marker is written and before anything is swapped is recovered... *)
-Theorem C08_recovery_point2_not_vetoed : forall nd blk,
-  sv_inv nd -> snd (deliver nd blk) = OReorg -> snd (deliver_crash 2 nd blk) = CRecovered.
-Proof. exact recovery_point2_not_vetoed. Qed.
-Print Assumptions C08_recovery_point2_not_vetoed.
+(** Crash inside a reorganisation (after the marker is written, or between the swap of the
+    mapping + status and the deletion of the marker) and recovery from the marker: the
+    reorganisation is redone (fix 479daa05 / F40: no second veto) and the recovered node satisfies
+    the node invariant: LIB and proposals on the new main chain. *)
+Theorem C08_recovery_redone : forall point nd blk,
+  snd (deliver nd blk) = OReorg -> snd (deliver_crash point nd blk) = CRecovered.
+Proof. exact recovery_redone. Qed.
+Print Assumptions C08_recovery_redone.
 
-(** ... but a crash between the swap (new mapping + new status in one bulk) and the deletion of
-    the marker is not: the mapping is put back to the old chain, the saved status is the new one,
-    and its LIB vetoes the recovery (known finding F40). *)
-Theorem C08_recovery_vetoed_refuted :
-  exists size self evs tip,
-    Forall ev_ok evs /\
-    snd (deliver_crash 3 (run (init_node size self) evs) tip) = CRecoverVeto /\
-    lib_on_main (fst (deliver_crash 3 (run (init_node size self) evs) tip)) = false.
-Proof. exact recovery_vetoed_refuted. Qed.
-Print Assumptions C08_recovery_vetoed_refuted.
+Theorem C08_recovery_lib_on_main : forall point nd blk,
+  NI nd -> blk_ok blk -> snd (deliver nd blk) = OReorg ->
+  lib_on_main (fst (deliver_crash point nd blk)) = true.
+Proof. exact recovery_lib_on_main. Qed.
+Print Assumptions C08_recovery_lib_on_main.
 
 (** calcLIB: at least n' - (n'-1)/3 of the n' proposals are at or above the computed LIB. *)
 Theorem C08_lib_supported_by_two_thirds : forall p l,
